@@ -76,17 +76,30 @@ func c13Renegotiate(ctx *core.Ctx, dotu bool) core.Result {
 	type variant struct {
 		srv, neg uint32
 		big      int // size of the frame behind the Tversion
+		flood    int // > 0: instead, that many small independent requests behind the Tversion (more than 8 x neg bytes)
 	}
-	variants := []variant{{8192, 256, 330}, {8192, 64, 65}, {4096, 1024, 4096}, {8192, 256, 200}, {1024, 128, 129}, {8192, 4096, 4097}}
+	variants := []variant{{8192, 256, 330, 0}, {8192, 64, 65, 0}, {4096, 1024, 4096, 0}, {8192, 256, 200, 0}, {1024, 128, 129, 0}, {8192, 4096, 4097, 0},
+		{8192, 64, 0, 100}, {1 << 20, 64, 0, 300}, {8192, 128, 0, 150}, {0, 24, 0, 40}}
 	for vi, v := range variants {
 		tv := wire.Encode(&wire.Msg{Type: wire.Tversion, Tag: wire.NOTAG, Msize: v.neg, Version: ver}, dotu)
 		base := len(wire.Encode(&wire.Msg{Type: wire.Tattach, Tag: 1, Fid: 0, Afid: wire.NOFID, Uname: "root", Nuname: 0, Aname: ""}, dotu))
-		att := wire.Encode(&wire.Msg{Type: wire.Tattach, Tag: 1, Fid: 0, Afid: wire.NOFID, Uname: "root", Nuname: 0, Aname: strings.Repeat("a", v.big-base)}, dotu)
+		pad := v.big - base
+		if pad < 0 {
+			pad = 0
+		}
+		att := wire.Encode(&wire.Msg{Type: wire.Tattach, Tag: 1, Fid: 0, Afid: wire.NOFID, Uname: "root", Nuname: 0, Aname: strings.Repeat("a", pad)}, dotu)
 		// the requests behind it do not depend on one another (they run concurrently): a flush of an unknown tag, a
 		// clunk of an unknown fid
 		st := wire.Encode(&wire.Msg{Type: wire.Tflush, Tag: 2, Oldtag: 999}, dotu)
 		cl := wire.Encode(&wire.Msg{Type: wire.Tclunk, Tag: 3, Fid: 77}, dotu)
 		frames := [][]byte{tv, att, st, cl}
+		if v.flood > 0 {
+			frames = [][]byte{tv}
+			for i := 0; i < v.flood; i++ {
+				frames = append(frames, wire.Encode(&wire.Msg{Type: wire.Tflush, Tag: uint16(1 + i), Oldtag: 0x7000}, dotu))
+			}
+			att = frames[1]
+		}
 		var stream []byte
 		var bounds []int
 		for _, f := range frames {
